@@ -19,11 +19,14 @@ reg('C03', 'runtime monitoring: API-boundary event log checked offline against a
     'target as scope, and agreement between entry points. ~10^6 recorded calls per quick run.',
     'Trusted: vlib/refsel.py as the relation; namespaces only exercised on namespace-aware documents; DEBUG output '
     'on stdout taken as the observable of flags forwarding.')
-reg('C04', 'runtime monitoring: history monitors (pristine-twin differential, select-vs-match, tree-mutation tripwire)',
+reg('C04', 'runtime monitoring: history monitors (pristine-twin differential, select-vs-match, tree-mutation tripwire) plus source-free failpoints (sys.monitoring LINE events raising inside the library)',
     'Each call of generated query histories on one document is judged by three monitors at the API boundary: same '
     'answer as on a pristine twin after purge(), select membership equals per-element match, and an identical '
     'structural fingerprint of the tree (incl. attribute value types and identities) before and after, with bs4 '
-    'mutators trapped during the call. Histories are biased to the memoising pseudo-classes and to twin subtrees.',
+    'mutators trapped during the call. Histories are biased to the memoising pseudo-classes and to twin subtrees. '
+    'Fault histories: a call is cut short by an exception injected at a random line inside soupsieve (or an early-closed '
+    'iterator, a raising iterable, a syntax error in a later alternative); every later ordinary call and 25 whole-document '
+    'canaries must answer as before the fault and the tree must be unchanged.',
     'Trusted: re-materialising the same recipe yields an equal pristine document; fingerprint covers public bs4 state.')
 reg('C05', 'runtime monitoring: metamorphic law monitor over identity sets returned by the real select()',
     'Nine to thirteen Boolean-algebra laws (union, :is union in both orders, complement, list complement, '
